@@ -243,6 +243,129 @@ def late_touch(case, line):
 MODEL_BIN = [None]
 
 
+
+# --------------------------------------------------------------------------
+# fork family (harness/c09_fork.c, modelrun_c09 fork)
+# --------------------------------------------------------------------------
+def gen_fork_case(rng):
+    n = rng.choice([1, 1, 2, 3])
+    pre = []
+    for _ in range(rng.choice([0, 0, 1, 2, 3])):
+        pre.append(rng.choice(["ps%d" % rng.randrange(n), "pt%d" % rng.randrange(n), "pr"]))
+    post = []
+    where = rng.random()
+    for _ in range(rng.randint(1, 9)):
+        who = "c" if where < 0.4 else "p" if where < 0.5 else rng.choice("pc")
+        kind = rng.choice(["s", "s", "t", "r"])
+        post.append(who + kind + ("" if kind == "r" else str(rng.randrange(n))))
+    tail = rng.choice([["pr", "cr", "pr", "cr"], ["cr", "pr", "cr", "pr"], ["pr", "pr", "cr", "cr"]])
+    return "%d ; %s" % (n, " ".join(pre + ["F"] + post + tail))
+
+
+def fork_cases_exhaustive(length):
+    """Every sequence of [length] operations after the fork over one handle, with and without
+    a send pending at fork time, both orders of the final runs."""
+    toks = ["ps0", "cs0", "ct0", "pr", "cr"]
+    out = []
+
+    def rec(seq):
+        if len(seq) == length:
+            for pre in ([], ["ps0"]):
+                for tail in (["pr", "cr"], ["cr", "pr"]):
+                    out.append("1 ; " + " ".join(pre + ["F"] + seq + tail))
+            return
+        for t in toks:
+            rec(seq + [t])
+    rec([])
+    return out
+
+
+def fork_monitor(case, line):
+    """Each process sees its own callbacks and none without a send of its own; the child's
+    wake-up descriptor is a new open file."""
+    toks = line.split()
+    begun = {"p": {}, "c": {}}
+    ncb = {"p": {}, "c": {}}
+    ran_after_send = {"p": True, "c": True}
+    for t in toks:
+        if t.startswith("F:"):
+            rc = t.split(":")[1]
+            if rc != "0":
+                return "uv_loop_fork failed in the child (%s)" % rc
+            begun["c"], ncb["c"] = {}, {}
+            continue
+        if t[0] in "pc" and len(t) > 1 and t[1] in "st" and ":" in t:
+            h = int(t[2:].split(":")[0])
+            begun[t[0]][h] = begun[t[0]].get(h, 0) + 1
+            ran_after_send[t[0]] = False
+        elif t[0] in "pc" and t[1:3] == "r:":
+            ran_after_send[t[0]] = True
+            evs = t.split(":")[1]
+            if evs != "-":
+                for e in evs.split("+"):
+                    h = int(e[1:].split("=")[0])
+                    ncb[t[0]][h] = ncb[t[0]].get(h, 0) + 1
+                    if ncb[t[0]][h] > begun[t[0]].get(h, 0):
+                        return ("%s: async_cb of handle %d ran without a send of its own in this process%s"
+                                % ("child" if t[0] == "c" else "parent", h,
+                                   " (uv_loop_fork left the parent's wake-up state in place)" if " fresh=0" in line else ""))
+    stale = ("after uv_loop_fork the child's wake-up descriptor is still the parent's open file (writing it in "
+             "the child made the parent's eventfd readable)") if " fresh=0" in line else None
+    m = re.search(r" P((?: h\d+=\d+/\d+/\d+)+)(?: C((?: h\d+=\d+/\d+/\d+)+))?", line)
+    if m:
+        for who, part in (("c", m.group(2)), ("p", m.group(1))):
+            if not part or not ran_after_send[who]:
+                continue
+            for hm in re.finditer(r"h(\d+)=(\d+)/(\d+)/(\d+)", part):
+                h, pub, seen, cbs = [int(x) for x in hm.groups()]
+                if seen < pub:
+                    return ("lost wake-up in the %s: its loop ran after its last send but the last callback of "
+                            "handle %d saw %d of %d published%s"
+                            % ("child" if who == "c" else "parent", h, seen, pub, ("; " + stale) if stale else ""))
+    return stale
+
+
+def run_fork_batch(chk, name, harness, model, cases):
+    impl, rc, err = vf.run_lines([harness], cases, shards=16, timeout=900)
+    mod, rc2, err2 = vf.run_lines([model, "fork"], cases, shards=8, timeout=900)
+    errors = []
+    if len(impl) != len(cases) or len(mod) != len(cases):
+        return 0, ["%s: harness/model printed %d/%d lines for %d cases" % (name, len(impl), len(mod), len(cases))]
+    bad, nerr = [], 0
+    for c, a, b in zip(cases, impl, mod):
+        if a.startswith("ERR"):
+            nerr += 1
+            if nerr <= 2:
+                again, _, _ = vf.run_lines([harness], [c], timeout=120)
+                if again and again[0] == a:
+                    chk.violation("%s: the run fails reproducibly (%s)" % (name, a),
+                                  {"kind": "crash", "obligation": name, "case": c, "impl": a, "family": "fork"},
+                                  found_input=True)
+                else:
+                    errors.append("%s: %s on case %s" % (name, a, c))
+            continue
+        chk.count(name, c + "=>" + a)
+        why = fork_monitor(c, a)
+        differ = vf.canon(a) != vf.canon(b)
+        if differ:
+            chk.cov["disagreements_checked"] += 1
+        if differ or why:
+            bad.append((0 if why else 1, len(a), c, a, b, why, differ))
+    bad.sort(key=lambda x: (x[0], x[1]))
+    for _, _, c, a, b, why, differ in bad[:3]:
+        if differ:
+            chk.violation("%s: implementation and model disagree%s" % (name, (": " + why) if why else ""),
+                          {"kind": "correspondence", "obligation": name, "case": c, "impl": a, "model": b,
+                           "monitor": why, "first_difference": first_diff(a, b), "family": "fork"},
+                          found_input=why is not None)
+        else:
+            chk.violation("%s: trace violates the property: %s" % (name, why),
+                          {"kind": "monitor", "obligation": name, "case": c, "impl": a, "family": "fork"},
+                          found_input=True)
+    chk.corr(name, len(cases))
+    chk.cov.setdefault("disagreeing_cases", {})[name] = len(bad)
+    return len(bad), errors
+
 # --------------------------------------------------------------------------
 def run_batch(chk, name, harness, model, cases, shards=16):
     """Run harness + model on the cases; returns (nbad, errors)."""
@@ -326,6 +449,7 @@ def main():
     try:
         lib = vf.build_libuv(chk.scratch, "ndebug")
         harness = vf.cc_harness(chk.scratch, "c09_async", ["c09_async.c"], lib=lib, wraps=WRAPS)
+        hfork = vf.cc_harness(chk.scratch, "c09_fork", ["c09_fork.c"], lib=lib)
         model = vf.model_bin("C09")
     except vf.BuildError as e:
         chk.violation("build failed: %s" % str(e)[:300], {"kind": "build", "log": str(e)}, found_input=False)
@@ -340,7 +464,10 @@ def main():
         import json
         rp = json.load(open(chk.replay))
         cases = [rp["case"]]
-        nbad, errors = run_batch(chk, "replay", harness, model, cases, shards=1)
+        if rp.get("family") == "fork":
+            nbad, errors = run_fork_batch(chk, "replay (fork family)", hfork, model, cases)
+        else:
+            nbad, errors = run_batch(chk, "replay", harness, model, cases, shards=1)
         chk.finish(rule="replay of one case")
 
     errors = []
@@ -373,6 +500,18 @@ def main():
         chk.cov.setdefault("cases", {})[name] = len(cases)
     if rnd:
         chk.sample({"case": rnd[0]})
+
+    # (c') fork family: parent and child both keep using their loops after uv_loop_fork
+    fcorpus_path = os.path.join(vf.VERIF, "corpus", "C09", "fork.txt")
+    fcases = [l.rstrip("\n") for l in open(fcorpus_path) if l.strip() and not l.startswith("#")] \
+        if os.path.exists(fcorpus_path) else []
+    fcases += fork_cases_exhaustive(5 if thorough else 4)
+    fcases += [gen_fork_case(chk.rng) for _ in range(8000 if thorough else 1500)]
+    nbad, errs = run_fork_batch(chk, "async.c = Model/Async.v (fork family)", hfork, model, fcases)
+    nbad_total += nbad
+    errors += errs
+    chk.cov.setdefault("cases", {})["fork family"] = len(fcases)
+    chk.sample({"fork_case": fcases[-1]})
 
     # (d) a disagreement without a failing input: look for one among more schedules
     if nbad_total and not any(v[2] for v in chk.violations):
